@@ -674,6 +674,72 @@ def ctx_grammar(tu, gname, rnd, tmpl, arity, nums, prop, slot, gadget, mode=None
     return g
 
 
+# ---------------------------------------------------------------------- cycles (C11)
+CYC_EXTRA = [("state", 1, (1,), "C11"), ("action_b", 1, (), "C11"), ("control_b", 1, (), "C11"), ("if_apply", 1, (0,), "C11"),
+             ("try_catch_std_raise_nested", 1, (3,), "C11"), ("try_catch_type_raise_nested", 1, (1,), "C11")]
+CYC_FILLERS = ["nullable", "predicate", "failing", "consuming"]
+CYC_VARIANTS = ["direct", "indirect", "guarded", "loopbody", "second_alt"]
+NO_ANALYZE_TRAITS = ("strict", "star_strict")
+
+
+def cyc_filler(g, kind, i):
+    if kind == "nullable":
+        return g.op("opt", [g.atom("one", "a")])
+    if kind == "predicate":
+        return g.op("at", [g.atom("one", "ab"[i % 2])])
+    if kind == "failing":
+        return g.atom("failure")
+    return g.atom("one", "a")
+
+
+def cyc_grammar(tu, gname, rnd, tmpl, arity, nums, slot, filler, variant):
+    g = G(tu, gname, rnd, "cyc", "C11")
+    g.cell = "%s/%d:%d:%s:%s" % (tmpl, arity, slot, filler, variant)
+    g.alpha.update("ab")
+    g.names = ["%s::B" % gname, "%s::A" % gname]
+    g.named_ids = [g.add("NAMED", vid=tu.vid(n)) for n in g.names]
+    A = (g.names[1], g.named_ids[1])
+    B = (g.names[0], g.named_ids[0])
+    if variant == "direct":
+        rec = A
+    elif variant == "indirect":
+        rec = B
+    elif variant == "guarded":
+        rec = g.op("seq", [g.atom("one", "a"), A])
+    elif variant == "second_alt":
+        rec = g.op("sor", [cyc_filler(g, filler, 1), A])
+    else:
+        rec = g.op("opt", [g.atom("one", "b")]) if rnd.random() < 0.5 else g.op("at", [g.atom("any")])
+    xs = []
+    for i in range(arity):
+        xs.append(rec if i == slot else cyc_filler(g, filler, i))
+    c = g.op(tmpl, xs, nums)
+    # B (used by the indirect variant; harmless otherwise)
+    bb = g.op("seq", [g.op("opt", [g.atom("one", "b")]), A])
+    g.finish_named(0, bb[0], bb[1])
+    # A : sor< C, one<'b'> > would add an exit; keep A = C so that the cycle is the only way
+    if rnd.random() < 0.5:
+        c = g.op("sor", [c, g.atom("one", "b")])
+    g.finish_named(1, c[0], c[1])
+    g.close()
+    return g
+
+
+def cyc_cells():
+    cells = []
+    for (tmpl, arity, nums, prop) in list(CTX_TEMPLATES) + CYC_EXTRA:
+        if tmpl in NO_ANALYZE_TRAITS:
+            continue
+        for slot in range(arity):
+            for filler in CYC_FILLERS:
+                for variant in CYC_VARIANTS:
+                    # analyze_traits of if_apply< R, ... > and until< R > name R::rule_t: a direct self-reference there is an incomplete type (does not compile)
+                    if variant == "direct" and slot == 0 and (tmpl == "if_apply" or (tmpl == "until" and arity == 1)):
+                        continue
+                    cells.append((tmpl, arity, nums, slot, filler, variant))
+    return cells
+
+
 def ctx_cells():
     cells = []
     for (tmpl, arity, nums, prop) in CTX_TEMPLATES:
